@@ -112,7 +112,19 @@ GarbleFirstUnknown(fl, i, acc) ==
        IN IF HasEq(t) \/ isBool THEN GarbleFirstUnknown(fl, i + 1, acc2)
           ELSE GarbleFirstUnknown(fl, i + 2, acc2)
 
-GarbleRejectsOwn(fl) == \E i \in 1..Len(fl) : fl[i].k = "flag" /\ fl[i].name \in GarbleOwn
+(* misplacedGarbleFlag (main.go): the flags are scanned like the splitter scans them, so the *)
+(* value of a "-name value" flag is never taken for a garble flag.  Before the repair of     *)
+(* F14 every element was tested, values included: what-if ScanValues = TRUE.                 *)
+ScanValues == FALSE
+OldScan == TRUE
+RECURSIVE GarbleOwnScan(_, _)
+GarbleOwnScan(fl, i) ==
+  IF i > Len(fl) THEN FALSE
+  ELSE IF fl[i].k = "flag" /\ fl[i].name \in GarbleOwn THEN TRUE
+  ELSE IF GarbleIsBoolArg(fl[i]) \/ HasEq(fl[i]) THEN GarbleOwnScan(fl, i + 1)
+  ELSE GarbleOwnScan(fl, i + 2)
+GarbleRejectsOwn(fl) == IF ScanValues THEN \E i \in 1..Len(fl) : fl[i].k = "flag" /\ fl[i].name \in GarbleOwn
+                        ELSE GarbleOwnScan(fl, 1)
 
 (* ---------------------------------------------------------------- state space *)
 VARIABLE argv
@@ -150,6 +162,9 @@ OwnInFlags(s) == \E i \in 1..Len(GoPairs(s, 1)) :
 UnknownFirst(s) == Len(GoPairs(s, 1)) > 0 /\ GoPairs(s, 1)[1][1] \in Unknown
 
 GarbleFlagRejected == OwnInFlags(argv) => GarbleRejectsOwn(GarbleFlagsOf(argv))
+(* ... and only then: a command line the go command accepts, with no garble flag in flag      *)
+(* position, is not rejected because a flag VALUE looks like a garble flag                     *)
+ValueNotRejected == (Documented(argv) /\ ~OwnInFlags(argv)) => ~GarbleRejectsOwn(GarbleFlagsOf(argv))
 UnknownRejected == UnknownFirst(argv) => GarbleFirstUnknown(GarbleFlagsOf(argv), 1, "") # ""
 
 (* ---------------------------------------------------------------- table (B3) *)
